@@ -48,7 +48,11 @@ def call(logic, K, f, naming='int', how=0, containers='list', form='obj', F=None
         f_before = [set(P) for P in kw['F']]
     try:
         with core.quiet():
-            res = L.modelcheck(kripke, arg, **kw)
+            if F is not None and fshape in ('tuple-set', 'list-frozenset', 'list-set-dup'):
+                # the optional arguments POSITIONALLY, in the documented order (kripke, formula, parser, F)
+                res = L.modelcheck(kripke, arg, None, kw['F'])
+            else:
+                res = L.modelcheck(kripke, arg, **kw)
     except Exception as e:
         if F is not None and [set(P) for P in kw['F']] != f_before:
             return ('bad', 'the caller\'s F was modified: %r -> %r' % (f_before, kw['F']))
